@@ -4,7 +4,8 @@
    printer gives them), for every layout whose "to the end of the line" field
    is last and every well-formed value list. *)
 From Dns Require Import Base.ListX Model.Present Proofs.EscapeProofs Proofs.PresentEscProofs
-     Proofs.PresentCodeProofs Proofs.PresentLexProofs Proofs.PresentTxtProofs Proofs.PresentWordProofs.
+     Proofs.PresentCodeProofs Proofs.PresentLexProofs Proofs.PresentTxtProofs Proofs.PresentWordProofs
+     Proofs.PresentAtomProofs.
 From Coq Require Import Lia ZifyN ZifyNat ZifyBool.
 Open Scope N_scope.
 
@@ -15,6 +16,10 @@ Definition norm_val (f : pfield) (v : pval) : pval :=
   | P_qstrs, V_strs l => V_strs (map sprint_txt_body l)
   | P_octet, V_octet s => V_octet (stxo_loop (S (length s)) s)
   | P_hex true, V_word h => V_word (upper_bytes h)
+  | P_hinfo, V_strs l => V_strs (map sprint_txt_body l)
+  | P_uinfo, V_octet s => V_octet (sprint_txt_body s)
+  | P_salt _, V_sized n h => V_sized n (upper_bytes h)
+  | P_time, V_time _ t => V_int t
   | _, _ => v
   end.
 
@@ -30,6 +35,24 @@ Definition wf_val (f : pfield) (v : pval) : Prop :=
   | P_hex up, V_word h => word_ok (if up then upper_bytes h else h) = true /\ wfb h
   | P_b64, V_word w => word_ok w = true
   | P_types, V_types l => Forall (fun t => t < 65536 /\ t <> 0 /\ t <> 65535) l
+  (* printed verbatim: the string itself must be one word (X25, CAA tag) *)
+  | P_word _, V_word s => word_ok s = true
+  | P_rawname, V_name s => word_ok s = true /\ to_absolute_name s = Some s
+  (* printed verbatim between quotes: every quote escaped, no dangling backslash *)
+  | P_qstr, V_word s => qbody_ok false s = true
+  | P_hinfo, V_strs l => length l = 2%nat /\ Forall str_ok l
+  | P_uinfo, V_octet s => str_ok s
+  (* SaltLength is what the parser recomputes; the text is one word other than "-" *)
+  | P_salt _, V_sized n h =>
+    n = (lenN h / 2) mod 256 /\ wfb h /\ (h = [] \/ (word_ok (upper_bytes h) = true /\ upper_bytes h <> [45]))
+  (* NSEC3.parse sets HashLength to 20 *)
+  | P_b32, V_sized n w => n = 20 /\ word_ok w = true
+  | P_hexsplit, V_word h => forallb word_ok (split_n h 1024) = true /\ wfb h
+  | P_mnem _ bits, V_int n => n < 2 ^ bits
+  | P_algnum, V_int n => n < 256
+  | P_type, V_int t => t < 65536 /\ t <> 0 /\ t <> 65535
+  (* the clock reads 1970 or later *)
+  | P_time, V_time now t => (0 <= now)%Z /\ t < 4294967296
   | _, _ => False
   end.
 
@@ -44,6 +67,18 @@ Definition field_items (f : pfield) (v : pval) : list item :=
   | P_hex up, V_word h => [IWord (if up then upper_bytes h else h)]
   | P_b64, V_word w => [IWord w]
   | P_types, V_types l => map (fun t => IWord (show_type t)) l
+  | P_word _, V_word s => [IWord s]
+  | P_rawname, V_name s => [IWord s]
+  | P_qstr, V_word s => [IQuoted s]
+  | P_hinfo, V_strs l => map (fun s => IQuoted (sprint_txt_body s)) l
+  | P_uinfo, V_octet s => [IQuoted (sprint_txt_body s)]
+  | P_salt _, V_sized _ h => [IWord (if is_nil h then [45] else upper_bytes h)]
+  | P_b32, V_sized _ w => [IWord w]
+  | P_hexsplit, V_word h => map IWord (split_n h 1024)
+  | P_mnem m _, V_int n => [IWord (show_mnem m n)]
+  | P_algnum, V_int n => [IWord (dec_bytes n)]
+  | P_type, V_int t => [IWord (show_type t)]
+  | P_time, V_time now t => [IWord (time_to_string now t)]
   | _, _ => []
   end.
 
@@ -57,11 +92,13 @@ Fixpoint simple_then_rest (G : list pfield) : bool :=
   | [f] => true
   | f :: r => is_simple f && simple_then_rest r
   end.
+(* fields that stand alone: lists of quoted strings *)
+Definition is_lone (f : pfield) : bool := match f with P_qstrs | P_hinfo | P_uinfo => true | _ => false end.
 Definition wf_playout (G : list pfield) : bool :=
   match G with
   | [] => false
-  | [P_qstrs] => true
-  | _ => simple_then_rest G && negb (existsb (fun f => match f with P_qstrs => true | _ => false end) G)
+  | [f] => true
+  | _ => simple_then_rest G && negb (existsb is_lone G)
   end.
 
 (* ---- rendering: fields joined by blanks = items joined by blanks ---- *)
@@ -105,14 +142,18 @@ Proof.
     try reflexivity.
   - apply sprint_txt_items.
   - apply join_types_items.
+  - apply sprint_txt_items.
+  - apply join_words_items.
 Qed.
 
 Lemma field_items_nonempty f v : wf_val f v ->
   field_items f v = [] -> (f = P_qstrs /\ v = V_strs []) \/ (f = P_types /\ v = V_types []).
 Proof.
-  destruct f, v; cbn [wf_val field_items]; try contradiction; intros _ H; try discriminate.
+  destruct f, v; cbn [wf_val field_items]; try contradiction; intros Hw H; try discriminate.
   - destruct l; [now left|discriminate].
   - destruct l; [now right|discriminate].
+  - destruct Hw as [Hl _]. destruct l; discriminate.
+  - apply map_eq_nil in H. now apply split_n_nonempty in H.
 Qed.
 
 Fixpoint all_items (G : list pfield) (vs : list pval) : list item :=
@@ -128,7 +169,7 @@ Proof. destruct G as [|g G]; [reflexivity|]. cbn [simple_then_rest]. intro H. ap
 
 Lemma present_fields_go_items G : forall vs first, Forall2 wf_val G vs ->
   simple_then_rest G = true ->
-  existsb (fun f => match f with P_qstrs => true | _ => false end) G = false ->
+  existsb is_lone G = false ->
   present_fields_go first G vs =
   (if first || no_items (all_items G vs) then [] else [32]) ++ render_items (all_items G vs).
 Proof.
@@ -159,16 +200,23 @@ Lemma present_fields_items G vs : wf_playout G = true -> Forall2 wf_val G vs ->
 Proof.
   intros Hg H. unfold present_fields.
   destruct G as [|f G']; [discriminate|].
-  destruct f; destruct G' as [|g G''];
-    try (unfold wf_playout in Hg; apply andb_prop in Hg; destruct Hg as [Hs Hq]; apply negb_true_iff in Hq;
-         rewrite present_fields_go_items by assumption; reflexivity).
-  (* the lone list of quoted strings *)
-  inversion H as [|? v ? vs' Hv Hr]; subst. inversion Hr; subst.
-  cbn [present_fields_go all_items]. rewrite !app_nil_r.
-  now apply present_field_items.
+  destruct G' as [|g G''].
+  - (* a single field *)
+    inversion H as [|? v ? vs' Hv Hr]; subst. inversion Hr; subst.
+    cbn [present_fields_go all_items]. rewrite !app_nil_r.
+    now apply present_field_items.
+  - unfold wf_playout in Hg. apply andb_prop in Hg. destruct Hg as [Hs Hq]. apply negb_true_iff in Hq.
+    rewrite present_fields_go_items by assumption. reflexivity.
 Qed.
 
 (* ---- every printed item is a good item ---- *)
+Lemma forallb_map_word (ws : list bytes) : forallb item_ok (map IWord ws) = forallb word_ok ws.
+Proof. induction ws as [|w r IH]; [reflexivity|]. cbn [map forallb item_ok]. now rewrite IH. Qed.
+
+Lemma salt_word_ok h : h = [] \/ (word_ok (upper_bytes h) = true /\ upper_bytes h <> [45]) ->
+  word_ok (if is_nil h then [45] else upper_bytes h) = true.
+Proof. intros [->|[H _]]; [reflexivity|]. destruct h; [discriminate|exact H]. Qed.
+
 Lemma field_items_ok f v : wf_val f v -> forallb item_ok (field_items f v) = true.
 Proof.
   destruct f, v; cbn [wf_val field_items]; try contradiction; intro H; cbn [forallb item_ok].
@@ -183,6 +231,20 @@ Proof.
   - now rewrite H.
   - rewrite forallb_forall. intros i Hi. apply in_map_iff in Hi. destruct Hi as (t & <- & _).
     apply show_type_word_ok.
+  - now rewrite H.
+  - destruct H as [H _]. now rewrite H.
+  - now rewrite H.
+  - destruct H as [_ H]. rewrite forallb_forall. intros i Hi. apply in_map_iff in Hi. destruct Hi as (s & <- & Hs).
+    rewrite Forall_forall in H. destruct (H s Hs) as [Hw _]. now apply printed_item_ok.
+  - destruct H as [Hw _]. change (item_ok (IQuoted (sprint_txt_body s)) && true = true).
+    now rewrite printed_item_ok.
+  - destruct H as (_ & _ & H). now rewrite salt_word_ok.
+  - destruct H as [_ H]. now rewrite H.
+  - destruct H as [H _]. now rewrite forallb_map_word.
+  - now rewrite show_mnem_word_ok.
+  - now rewrite dec_word_ok.
+  - now rewrite show_type_word_ok.
+  - destruct H as [Hn Ht]. rewrite time_to_string_now by assumption. rewrite format_time_word_ok; [reflexivity|lia].
 Qed.
 
 Lemma all_items_ok G : forall vs, Forall2 wf_val G vs -> forallb item_ok (all_items G vs) = true.
@@ -214,34 +276,45 @@ Proof.
       * rewrite B. rewrite IH by exact Hr. now rewrite <- app_assoc.
 Qed.
 
-(* the value of one simple field, read from its word *)
-Definition simple_value (f : pfield) (text : bytes) : res pval :=
-  match f with
-  | P_uint bits => match parse_uint text bits with Some n => Ok (V_int n) | None => Err "int" end
-  | P_u32ttl => match parse_uint text 32 with
-                | Some n => Ok (V_int n)
-                | None => match string_to_ttl text with Some n => Ok (V_int n) | None => Err "int" end
-                end
-  | P_name => match to_absolute_name text with Some n => Ok (V_name n) | None => Err "name" end
-  | P_ip4 => match parse_ip4 text with Some a => Ok (V_ip4 a) | None => Err "ip" end
-  | _ => Err "field"
-  end.
-
-Lemma simple_value_ok f v : is_simple f = true -> wf_val f v ->
-  exists w, field_items f v = [IWord w] /\ simple_value f w = Ok (norm_val f v).
+(* a simple field: its one item is read back as the normal form of the value *)
+Lemma single_ok f v : is_simple f = true -> wf_val f v ->
+  exists i, field_items f v = [i] /\ forall r, read_single f (item_toks i ++ r) = Ok (norm_val f v, r).
 Proof.
   destruct f, v; cbn [is_simple is_rest negb wf_val]; try discriminate; try contradiction; intros _ H;
-    eexists; (split; [reflexivity|]); cbn [simple_value norm_val].
+    eexists; (split; [reflexivity|]); intro r; cbn [item_toks app read_single is_err tok_text norm_val].
   - now rewrite parse_uint_dec.
   - now rewrite parse_uint_dec.
   - destruct H as [_ ->]. reflexivity.
   - destruct H as [Hl Hw]. now rewrite parse_ip4_present.
+  - (* P_word *) destruct strict; reflexivity.
+  - (* P_rawname *) destruct H as [_ ->]. reflexivity.
+  - (* P_qstr *) destruct s; reflexivity.
+  - (* P_salt *)
+    destruct H as (Hn & _ & [->|[Hw Hne]]).
+    + subst n. cbn [is_nil]. replace (bytes_eqb [45] [45]) with true by reflexivity.
+      rewrite andb_false_r. reflexivity.
+    + assert (Hnn : is_nil (upper_bytes s) = false) by (apply word_ok_nonempty in Hw; now destruct (upper_bytes s)).
+      assert (Hs : is_nil s = false) by (destruct s; [discriminate|reflexivity]).
+      rewrite Hs, Hnn, andb_false_r.
+      replace (bytes_eqb (upper_bytes s) [45]) with false.
+      2:{ symmetry. apply not_true_iff_false. intro E. apply bytes_eqb_eq in E. contradiction. }
+      cbn [bind]. subst n. unfold lenN, upper_bytes. rewrite map_length. reflexivity.
+  - (* P_b32 *) destruct H as [-> Hw]. apply word_ok_nonempty in Hw. destruct s; [congruence|reflexivity].
+  - (* P_mnem *) pose proof (read_mnem tbl n bits H) as R.
+    destruct (lookup_name (mtab tbl) (show_mnem tbl n)); [now subst|now rewrite R].
+  - (* P_algnum *) rewrite read_algnum by exact H. reflexivity.
+  - (* P_type *) destruct H as (Ht & H0 & H1). pose proof (read_type_show n Ht H0 H1) as R. unfold read_type in R.
+    destruct (string_to_type (upper_bytes (show_type n))); [now injection R as ->|].
+    destruct (has_prefix b_TYPE (upper_bytes (show_type n))); [now rewrite R|discriminate].
+  - (* P_time *) destruct H as [Hn Ht]. rewrite time_to_string_now by assumption.
+    rewrite string_to_time_format by lia. cbn [bind]. now rewrite N2Z.id.
 Qed.
 
 (* one step of parse_fields on a simple field *)
-Lemma parse_fields_simple f G' w r : is_simple f = true ->
-  parse_fields (f :: G') (TStr w :: r) =
-  (do v <- simple_value f w;
+Lemma parse_fields_single f G' ts : is_simple f = true ->
+  parse_fields (f :: G') ts =
+  (do p <- read_single f ts;
+   let '(v, r) := p in
    let r' := match G' with
              | [] => r
              | g :: _ => if is_rest g then (match g with P_octet => tl r | _ => r end) else tl r
@@ -269,10 +342,20 @@ Proof.
   - destruct up; reflexivity.
   - reflexivity.
   - rewrite parse_types_words by exact H. reflexivity.
+  - (* HINFO: two quoted strings *)
+    destruct H as [Hl Hf]. unfold ending_to_txt_slice. rewrite <- (map_map sprint_txt_body IQuoted).
+    rewrite etts_quoted_list.
+    2:{ rewrite Forall_map. eapply Forall_impl; [|exact Hf]. intros s Hs. now apply printed_chunk_ok. }
+    cbn [app bind]. destruct l as [|a [|b [|c l]]]; try discriminate. reflexivity.
+  - (* UINFO *)
+    unfold ending_to_txt_slice. cbn [items_toks]. rewrite etts_quoted by now apply printed_chunk_ok.
+    reflexivity.
+  - (* SMIMEA *)
+    unfold ending_to_string. rewrite ets_words. cbn [app bind]. rewrite split_n_concat by lia. reflexivity.
 Qed.
 
 (* the same after the blank that separates it from a preceding field *)
-Lemma parse_rest_after_blank g v : is_rest g = true -> g <> P_qstrs -> wf_val g v ->
+Lemma parse_rest_after_blank g v : is_rest g = true -> is_lone g = false -> wf_val g v ->
   parse_fields [g]
     (match g with P_octet => items_toks (field_items g v) ++ [TNewline]
      | _ => match field_items g v with
@@ -281,7 +364,7 @@ Lemma parse_rest_after_blank g v : is_rest g = true -> g <> P_qstrs -> wf_val g 
             end
      end) = Ok [norm_val g v].
 Proof.
-  intros Hr Hq Hv. destruct g; try discriminate; try congruence.
+  intros Hr Hq Hv. destruct g; try discriminate.
   - now apply parse_rest_field.
   - destruct v; cbn [wf_val] in Hv; try contradiction. cbn [field_items]. destruct up; reflexivity.
   - destruct v; cbn [wf_val] in Hv; try contradiction. reflexivity.
@@ -290,63 +373,71 @@ Proof.
     change (IWord (show_type t) :: map (fun t0 => IWord (show_type t0)) l)
       with (map (fun t0 => IWord (show_type t0)) (t :: l)).
     cbn [parse_fields parse_types_go]. rewrite parse_types_words by exact Hv. reflexivity.
+  - (* SMIMEA: endingToString skips the blank *)
+    pose proof (parse_rest_field P_hexsplit v eq_refl Hv) as P.
+    destruct (field_items P_hexsplit v) as [|j0 jts] eqn:Ej.
+    + destruct (field_items_nonempty _ _ Hv Ej) as [[? _]|[? _]]; discriminate.
+    + cbn [parse_fields] in *. unfold ending_to_string in *. cbn [ets_go]. exact P.
 Qed.
 
 Definition norm_all (G : list pfield) (vs : list pval) : list pval :=
   map (fun p => norm_val (fst p) (snd p)) (combine G vs).
 
 Lemma simple_items_nonempty f v : is_simple f = true -> wf_val f v -> field_items f v <> [].
-Proof. intros Hs Hv. destruct (simple_value_ok f v Hs Hv) as (w & -> & _). discriminate. Qed.
+Proof. intros Hs Hv. destruct (single_ok f v Hs Hv) as (w & -> & _). discriminate. Qed.
+
+Lemma lone_is_rest g : is_lone g = true -> is_rest g = true.
+Proof. destruct g; try discriminate; reflexivity. Qed.
 
 Lemma parse_all G : forall vs, G <> [] -> simple_then_rest G = true ->
-  existsb (fun f => match f with P_qstrs => true | _ => false end) G = false ->
+  (existsb is_lone G = false \/ exists f, G = [f]) ->
   Forall2 wf_val G vs ->
   parse_fields G (items_toks (all_items G vs) ++ [TNewline]) = Ok (norm_all G vs).
 Proof.
   induction G as [|f G' IH]; intros vs Hne Hs Hq H; [congruence|].
   inversion H as [|? v ? vs' Hv Hr]; subst.
-  cbn [existsb] in Hq. apply orb_false_elim in Hq. destruct Hq as [Hqf Hq'].
   cbn [all_items]. unfold norm_all. cbn [combine map fst snd]. fold (norm_all G' vs').
   destruct (is_rest f) eqn:Ef.
   - (* a reading-to-the-end field must be the last *)
     destruct G' as [|g G'']; [|cbn [simple_then_rest] in Hs; unfold is_simple in Hs; rewrite Ef in Hs; discriminate].
     inversion Hr; subst. cbn [all_items]. rewrite app_nil_r. now apply parse_rest_field.
   - assert (Hsf : is_simple f = true) by (unfold is_simple; now rewrite Ef).
-    destruct (simple_value_ok f v Hsf Hv) as (w & Ew & Evw). rewrite Ew. cbn [app].
+    destruct (single_ok f v Hsf Hv) as (i & Ei & Er). rewrite Ei. cbn [app].
     destruct G' as [|g G''].
-    + inversion Hr; subst. cbn [all_items items_toks item_toks app].
-      rewrite parse_fields_simple by exact Hsf. rewrite Evw. cbn [bind parse_fields slurp_remainder]. reflexivity.
-    + inversion Hr as [|? vg ? vs'' Hvg Hr']; subst.
+    + inversion Hr; subst. cbn [all_items items_toks].
+      rewrite parse_fields_single by exact Hsf. rewrite Er. cbn [bind parse_fields slurp_remainder]. reflexivity.
+    + assert (Hq' : existsb is_lone (g :: G'') = false).
+      { destruct Hq as [Hq|[f0 Hq]]; [|discriminate]. cbn [existsb] in Hq. apply orb_false_elim in Hq. now destruct Hq. }
+      inversion Hr as [|? vg ? vs'' Hvg Hr']; subst.
       assert (Hs' : simple_then_rest (g :: G'') = true).
       { cbn [simple_then_rest] in Hs. apply andb_prop in Hs. now destruct Hs. }
       destruct (is_rest g) eqn:Eg.
       * (* the last field: it reads the rest of the line *)
         destruct G'' as [|g2 G3]; [|cbn [simple_then_rest] in Hs'; unfold is_simple in Hs'; rewrite Eg in Hs'; discriminate].
         inversion Hr'; subst. cbn [all_items]. rewrite app_nil_r.
-        assert (Hgq : g <> P_qstrs).
-        { intro; subst g. cbn in Hq'. discriminate. }
+        assert (Hgq : is_lone g = false).
+        { cbn [existsb] in Hq'. apply orb_false_elim in Hq'. now destruct Hq'. }
         pose proof (parse_rest_after_blank g vg Eg Hgq Hvg) as P.
         unfold norm_all. cbn [combine map fst snd].
         destruct (field_items g vg) as [|j0 jts] eqn:Ej; rewrite ?Ej in P.
         -- (* only an empty type list prints nothing *)
-           cbn [items_toks item_toks app]. rewrite parse_fields_simple by exact Hsf. rewrite Evw. cbn [bind].
-           rewrite Eg. destruct g; try discriminate; try congruence;
+           cbn [items_toks]. rewrite parse_fields_single by exact Hsf. rewrite Er. cbn [bind].
+           rewrite Eg. destruct g; try discriminate;
              try (destruct vg; cbn [wf_val] in Hvg; try contradiction; cbn [field_items] in Ej; discriminate).
-           cbn zeta. rewrite P. reflexivity.
-        -- change (IWord w :: j0 :: jts) with ([IWord w] ++ j0 :: jts).
-           rewrite items_toks_app by discriminate. change (items_toks [IWord w]) with [TStr w]. cbn [app].
-           rewrite parse_fields_simple by exact Hsf. rewrite Evw. cbn [bind]. rewrite Eg.
-           destruct g; try discriminate; try congruence; cbn zeta; cbn [tl]; rewrite P; reflexivity.
+           ++ cbn zeta. rewrite P. reflexivity.
+           ++ destruct (field_items_nonempty _ _ Hvg Ej) as [[? _]|[? _]]; discriminate.
+        -- rewrite items_toks_cons by discriminate. rewrite <- app_assoc. cbn [app].
+           rewrite parse_fields_single by exact Hsf. rewrite Er. cbn [bind]. rewrite Eg.
+           destruct g; try discriminate; cbn zeta; cbn [tl]; rewrite P; reflexivity.
       * (* another simple field follows: skip the blank *)
         assert (Hsg : is_simple g = true) by (unfold is_simple; now rewrite Eg).
         pose proof (simple_items_nonempty g vg Hsg Hvg) as Hng.
         assert (Hna : all_items (g :: G'') (vg :: vs'') <> []).
         { cbn [all_items]. destruct (field_items g vg); [congruence|discriminate]. }
         destruct (all_items (g :: G'') (vg :: vs'')) as [|a0 ats] eqn:Ea; [congruence|].
-        change (IWord w :: a0 :: ats) with ([IWord w] ++ a0 :: ats).
-        rewrite items_toks_app by discriminate. change (items_toks [IWord w]) with [TStr w]. cbn [app].
-        rewrite parse_fields_simple by exact Hsf. rewrite Evw. cbn [bind]. rewrite Eg. cbn zeta. cbn [tl].
-        rewrite <- Ea. rewrite IH; [reflexivity|discriminate|exact Hs'|exact Hq'|exact Hr].
+        rewrite items_toks_cons by discriminate. rewrite <- app_assoc. cbn [app].
+        rewrite parse_fields_single by exact Hsf. rewrite Er. cbn [bind]. rewrite Eg. cbn zeta. cbn [tl].
+        rewrite <- Ea. rewrite IH; [reflexivity|discriminate|exact Hs'|now left|exact Hr].
 Qed.
 
 (* ---- the theorem ---- *)
@@ -357,14 +448,10 @@ Proof.
   rewrite present_fields_items by assumption.
   rewrite lexer_on_printed by now apply all_items_ok.
   destruct G as [|f G']; [discriminate|].
-  assert (Hlone : f = P_qstrs -> G' = [] ->
-                  parse_fields (f :: G') (items_toks (all_items (f :: G') vs) ++ [TNewline]) = Ok (norm_all (f :: G') vs)).
-  { intros -> ->. inversion H as [|? v ? vs' Hv Hr]; subst. inversion Hr; subst.
-    cbn [all_items]. rewrite app_nil_r. unfold norm_all. cbn [combine map fst snd].
-    now apply parse_rest_field. }
-  destruct f; destruct G' as [|g G'']; try (now apply Hlone);
-    unfold wf_playout in Hg; apply andb_prop in Hg; destruct Hg as [Hs Hq]; apply negb_true_iff in Hq;
-    (apply parse_all; [discriminate|exact Hs|exact Hq|exact H]).
+  destruct G' as [|g G''].
+  - apply parse_all; [discriminate|reflexivity|right; now exists f|exact H].
+  - unfold wf_playout in Hg. apply andb_prop in Hg. destruct Hg as [Hs Hq]. apply negb_true_iff in Hq.
+    apply parse_all; [discriminate|exact Hs|now left|exact H].
 Qed.
 
 (* ---- what the normal form denotes ---- *)
@@ -377,4 +464,8 @@ Proof.
   - destruct H as [Hw _]. destruct (stxo_spec (S (length s)) s ltac:(lia) Hw) as [_ U]. now rewrite U.
   - destruct H as [_ Hw]. destruct up; cbn [norm_val meaning]; [|reflexivity]. f_equal. f_equal.
     now apply unhex_upper.
+  - destruct H as [_ H]. f_equal. f_equal. rewrite map_map. apply map_ext_in. intros s Hs. rewrite Forall_forall in H.
+    destruct (H s Hs) as [Hw _]. now apply unescape_sprint_txt_body.
+  - destruct H as [Hw _]. f_equal. f_equal. now apply unescape_sprint_txt_body.
+  - destruct H as (_ & Hw & _). f_equal. f_equal. now apply unhex_upper.
 Qed.
